@@ -198,7 +198,7 @@ def path_task(payload, decisions):
     if res.outcome == "undecided":
         import traceback
 
-        tb = "".join(x for x in traceback.format_exception(res.exc) if "/repo/" in x)[-600:]
+        tb = "".join(x for x in traceback.format_exception(res.exc) if "ceos_alos2/" in x and "/tests/" not in x)[-600:]
         if payload.get("gen_dir"):
             print("UNDECIDED", tag, repr(res.exc)[:300], tb)
         sub.not_proved(f"{prop}/{unit}/within-verified-subset", f"{exc_text(res.exc)} {tb}", function=fn,
